@@ -294,6 +294,34 @@ theorem base_cost (isReceive : Bool) (mc : Option Nat) (n : Nat) :
   simp only [Gen.AccountBlockBasePlasma, Gen.ABByteDataPlasma]
   cases isReceive <;> cases mc <;> simp <;> omega
 
+/-- T6b `base_cost_checked` (the function the driver evaluates for the `plasma-base` lines): whenever the node assigns a
+    base cost it is the cost of T6 - 21000 for a receive, the method's cost for an embedded call, 21000 + 68 per data byte
+    for every other send, whatever its destination (the destination is not an argument) -, and a plain send is priced iff
+    its data fits the limit: there is no shape of send block that is priced like a receive -/
+theorem base_cost_checked (isReceive : Bool) (mc : Option Nat) (n : Nat) :
+    (∀ v, basePlasmaChecked isReceive mc n = some v →
+      v = if isReceive then 21000 else match mc with | some c => c | none => 21000 + 68 * n) ∧
+    (basePlasmaChecked isReceive mc n = none ↔ (isReceive = false ∧ mc = none ∧ n > 16384)) := by
+  unfold basePlasmaChecked
+  constructor
+  · intro v h
+    rw [← base_cost]
+    cases isReceive <;> cases mc <;> simp at h ⊢
+    · exact h.2.symm
+    · exact h.symm
+    · exact h.symm
+    · exact h.symm
+  · cases isReceive <;> cases mc <;> simp [Gen.MaxDataLength]
+
+/-- a send that carries data costs strictly more than a receive, wherever it goes -/
+theorem data_is_paid_for (n : Nat) (v : Nat) (hn : 0 < n) (h : basePlasmaChecked false none n = some v) :
+    v ≥ 21000 + 68 ∧ v > basePlasma true none n := by
+  have := (base_cost_checked false none n).1 v h
+  simp at this
+  have hb := base_cost true none n
+  simp at hb
+  omega
+
 example : enoughPlasma 1000000000 0 0 21000 0 21000 = .ok 21000 := by decide
 example : enoughPlasma 1000000000 0 21000 21000 0 21000 = .notEnoughPlasma := by decide
 
